@@ -160,13 +160,14 @@ type Env struct {
 	// snapMu orders snapshots against the harness's own bookkeeping: every "log event + independent
 	// count" pair is updated under RLock, a snapshot is taken under Lock, so a snapshot never falls
 	// between a wire/dispatch/async-error event and the count that goes with it
-	snapMu sync.RWMutex
-	mu     sync.Mutex
-	events []Event
-	seq    int
-	peers  []*Peer
-	calls  map[int]*Call
-	nextID int
+	snapMu    sync.RWMutex
+	mu        sync.Mutex
+	listeners []*Listener
+	events    []Event
+	seq       int
+	peers     []*Peer
+	calls     map[int]*Call
+	nextID    int
 
 	dials atomic.Int64 // generations dialled so far
 
@@ -237,6 +238,7 @@ type Options struct {
 	HandlerMode       int           // 0 data handler; 1 NO data handler registered; 2 data handler + decode-error handler
 	TraceTraffic      bool          // hsms.WithTraceTraffic
 	Secs1             bool          // SECS-I transport (equipment role) instead of HSMS-SS
+	Passive           bool          // HSMS-SS passive role: harness-owned listener, peers connect (see passive.go)
 	T2                time.Duration // SECS-I line timers
 	Retry             int
 }
@@ -328,6 +330,9 @@ func NewEnv(o Options) (*Env, error) {
 		conn, e.Core = sc, secs1.VerifCore(sc)
 	} else {
 		hopts := []hsmsss.Option{hsmsss.WithActive(), hsmsss.WithDialer(dial)}
+		if o.Passive {
+			hopts = []hsmsss.Option{hsmsss.WithPassive(), hsmsss.WithListener(e.listen)}
+		}
 		for _, c := range copts {
 			hopts = append(hopts, hsmsss.WithConnectionOption(c))
 		}
@@ -668,6 +673,15 @@ func (p *Peer) Primary(n uint32) error {
 	var sys [4]byte
 	binary.BigEndian.PutUint32(sys[:], 0x80000000|n)
 	return p.SendData(frame(p.env.SessionID, 1, 13, 0, 0, sys, body(n, uint32(p.Gen)).ToBytes()))
+}
+
+// LinktestReq / SelectReq write the control request on this peer's connection.
+func (p *Peer) LinktestReq() error {
+	return p.write(frame(0xFFFF, 0, 0, 0, 5, [4]byte{0x71, 0, 0, byte(p.Gen)}, nil))
+}
+
+func (p *Peer) SelectReq() error {
+	return p.write(frame(p.env.SessionID, 0, 0, 0, 1, [4]byte{0x72, 0, 0, byte(p.Gen)}, nil))
 }
 
 // PrimaryForeign sends an unsolicited primary carrying a Session ID that is not the connection's:
